@@ -78,6 +78,12 @@ var rmCmd = &cobra.Command{
 					}
 				}
 			} else {
+				// an earlier argument may already have removed what made this one match:
+				// never touch the working tree for a path that is not tracked
+				if _, _, isRegistered := client.Idx.GetEntry([]byte(cleanedArg)); !isRegistered {
+					return fmt.Errorf("fatal: pathspec '%s' did not match any files", arg)
+				}
+
 				// remove from the working tree
 				if err := removeFromWorkingTree(cleanedArg); err != nil {
 					return err
